@@ -1,50 +1,62 @@
 import Girc.Model.Tags
 import Girc.Spec.EventSpec
 import Girc.Spec.Grammar
+import Girc.Proofs.TagsAux
 namespace Girc.Proofs.Tags
 open Girc Girc.Model Girc.Spec
+open Girc.Proofs.TagsAux
 
 theorem tagDecode_tagEncode (v : Bytes) : tagDecode (tagEncode v) = v := by
-  sorry
+  induction v with
+  | nil => simp [tagEncode, tagDecode]
+  | cons b v ih =>
+    have hcons : tagEncode (b :: v) = tagEnc1 b ++ tagEncode v := by simp [tagEncode]
+    rw [hcons]
+    rcases tagEnc1_cases b with ⟨h1, h2⟩ | ⟨h1, h2⟩
+    · rw [h1]; simp [tagDecode_cons_ne _ _ h2, ih]
+    · rw [h1, List.cons_append, List.cons_append, List.nil_append, tagDecode_esc _ _ _ h2, ih]
 
 theorem tagsSet_get (t t' : Tags) (k v : Bytes) (h : tagsSet t k v = some t') :
     tagsGet (some t') k = some v := by
-  sorry
+  obtain ⟨_, _, _, rfl⟩ := tagsSet_some t t' k v h
+  simp [tagsGet, get?_set, tagDecode_tagEncode]
 
-theorem validTagValue_wireSafe (v : Bytes) (h : validTagValue v = true) : wireSafeValue v = true := by
-  sorry
+theorem validTagValue_wireSafe (v : Bytes) (h : validTagValue v = true) : wireSafeValue v = true :=
+  validTagValue_wireSafe' v h
 
 theorem wfTags_nil : wfTags [] = true := by
-  sorry
+  decide
 
 /-- Everything the tag API builds is well-formed. -/
 theorem tagsSet_wf (t t' : Tags) (k v : Bytes) (hw : wfTags t = true) (h : tagsSet t k v = some t') :
-    wfTags t' = true := by
-  sorry
+    wfTags t' = true :=
+  tagsSet_wf' t t' k v hw h
 
 /-- A well-formed map is never truncated by `Tags.Bytes`. -/
 theorem tagsBytes_full (t : Tags) (hw : wfTags t = true) (hne : t ≠ []) :
-    tagsBytes (some t) = tagsBytesFull t := by
-  sorry
+    tagsBytes (some t) = tagsBytesFull t :=
+  tagsBytes_full' t hw hne
 
 /-- Parsing the serialised tag section gives back every stored value. -/
 theorem parseTags_full (t : Tags) (hw : wfTags t = true) (hne : t ≠ []) (k : Bytes) :
-    AMap.get? (parseTags ((tagsBytesFull t).drop 1)) k = AMap.get? t k := by
-  sorry
+    AMap.get? (parseTags ((tagsBytesFull t).drop 1)) k = AMap.get? t k :=
+  parseTags_full' t hw hne k
 
-theorem tagsBytesFull_noSpace (t : Tags) (hw : wfTags t = true) : SP ∉ tagsBytesFull t := by
-  sorry
+theorem tagsBytesFull_noSpace (t : Tags) (hw : wfTags t = true) : SP ∉ tagsBytesFull t :=
+  tagsBytesFull_noSpace' t hw
 
-theorem tagsBytesFull_length (t : Tags) (hw : wfTags t = true) (hne : t ≠ []) : 2 ≤ (tagsBytesFull t).length := by
-  sorry
+theorem tagsBytesFull_length (t : Tags) (hw : wfTags t = true) (hne : t ≠ []) : 2 ≤ (tagsBytesFull t).length :=
+  tagsBytesFull_length' t hw hne
 
 /-- On values whose backslashes all start a defined escape, girc's decoder is the IRCv3 unescaping. -/
-theorem tagDecode_unescape (v : Bytes) (h : escapesDefined v = true) : tagDecode v = unescape v := by
-  sorry
+theorem tagDecode_unescape (v : Bytes) (h : escapesDefined v = true) : tagDecode v = unescape v :=
+  tagDecode_unescape' v h
 
 /-- Last duplicate wins. -/
 theorem meaningTags_get (ts : List (Bytes × Option Bytes)) (k : Bytes) :
     AMap.get? (meaningTags ts) k = (ts.reverse.find? (fun t => t.1 == k)).map (fun t => t.2.getD []) := by
-  sorry
+  unfold meaningTags
+  rw [meaningTags_get_aux]
+  simp [AMap.get?]
 
 end Girc.Proofs.Tags
